@@ -5,6 +5,7 @@
    unicast-only.  The statements hold for EVERY accepted trace: any number of pending / in-flight
    transmissions, any stop instant, any interleaving of their begins and ends, any latency. *)
 From CR Require Import Model.Shutdown Proofs.Shutdown.
+From CR Require Import Model.Group Model.RunOrder Proofs.Group Proofs.RunOrder gen.ExtGroup.
 Local Open Scope N_scope.
 
 (* terminating: the trace is  pre ++ [final begin; final end; return nil]  where pre holds only
@@ -43,6 +44,36 @@ Proof. exact run_returned. Qed.
 Theorem C08_returns_partial : forall w fl, exists tr, run w (Cancelled, fl) tr = Some (Returned, []).
 Proof. exact can_return. Qed.
 
+(* ---- the same clause on the model of the code (not only on accepted traces): Advertiser.Run
+   around the goroutine group of Model/Group.v, with the guards and the two orderings of Run read
+   from the source on every run (gen/ExtGroup.v).  In every reachable state -- any interleaving,
+   arrivals, failures, link events -- in which the final RA is being transmitted or Run has
+   returned: the cancellation has happened, every member of the group has returned, no worker is
+   inside WriteTo or about to report, none can start, the listener has returned, and no step
+   changes that.  The final RA is alone on the wire and last. *)
+Theorem C08_orderings : extracted_order = mkO true true /\ extracted = mkG true true true true true true.
+Proof. split; [exact extracted_order_true|exact extracted_all_true]. Qed.
+
+Theorem C08_final_alone : forall r, rreach (mkO true true) (mkG true true true true true true) r -> ph r <> PGroup ->
+  gc (grp r) = true /\ all_done (grp r) = true /\ kw (grp r) = 0%nat /\ ke (grp r) = 0%nat /\
+  stopped (grp r) = true /\ L (grp r) = Ldone /\
+  forall r', In r' (rsteps (mkO true true) (mkG true true true true true true) r) -> kw (grp r') = 0%nat.
+Proof.
+  intros r Hr Hp. split; [exact (final_after_cancel r Hr Hp)|]. exact (final_alone r Hr Hp).
+Qed.
+
+(* what each piece is needed for: with the scheduler not waiting for its workers (the repaired
+   defect 224e990), or with either ordering of Run missing, a state is reachable in which the final
+   RA is in flight together with another transmission *)
+Theorem C08_legacy_overtaken :
+  (exists r, rreach (mkO true true) (mkG true true true false true true) r /\ ph r = PFinal /\ (0 < kw (grp r))%nat) /\
+  (exists r, rreach (mkO false true) (mkG true true true true true true) r /\ ph r = PFinal /\ (0 < kw (grp r))%nat) /\
+  (exists r, rreach (mkO true false) (mkG true true true true true true) r /\ ph r = PFinal /\ (0 < kw (grp r))%nat).
+Proof.
+  split; [exact (overtaken_reach _ _ _ legacy_no_wait_overtaken)|].
+  split; [exact (overtaken_reach _ _ _ order_needed_wait)|exact (overtaken_reach _ _ _ order_needed_after)].
+Qed.
+
 (* non-vacuity: a unicast answer in flight at the cancellation, completed before the final RA *)
 Example C08_example :
   accepts true [LBegin 0 false; LEnd 0; LBegin 1 false; LCancel; LBegin 2 false; LEnd 1; LEnd 2; LBegin 3 true; LEnd 3; LReturn true] = true /\
@@ -56,3 +87,6 @@ Print Assumptions C08_reload.
 Print Assumptions C08_one_final.
 Print Assumptions C08_quiet.
 Print Assumptions C08_returns_partial.
+Print Assumptions C08_orderings.
+Print Assumptions C08_final_alone.
+Print Assumptions C08_legacy_overtaken.
